@@ -31,6 +31,7 @@ ASSUMPTIONS = [
     "order 3 is compared with a tolerance of 0.1 px on ramps (spline prefilter sees the crop edge); order 0 is don't-care within 1e-4 of a half-integer coordinate",
     "a window centred more than (half extent + order + 2) px outside the tomogram must raise; closer windows that do not overlap may raise or return finite fill; NaN is never accepted",
     "without corner_safe only the inscribed ball |k-c| <= (min(shape)-1)/2 is checked",
+    "added during the seeding waves: tomograms read through SubtomogramLoader.imread, a one-tomogram BatchLoader, small-angle rotations, call histories on one loader whose molecules are edited in place between loads (depth 3, mutators)",
 ]
 
 SHAPES = [(3, 3, 3), (4, 4, 4), (5, 4, 3), (3, 5, 4), (1, 1, 1)]
